@@ -66,4 +66,25 @@ MergeClause(srcs, islist, rows, labels, constc, offc, trendc) ==
   ELSE IF islist /\ ~ListOffsetsOK(srcs, rows, offc) THEN "C08.ListOrderFixesReferenceAndOffsets"
   ELSE IF ~TrendOK(rows, trendc) THEN "C08.TrendColumnsRelativeToTRef"
   ELSE ""
+
+(***************************************************************************)
+(* Named deviation KF_IdsNotPermuted (known finding, see                    *)
+(* known_findings.json): the labels are laid out in source-concatenation   *)
+(* order -- all epochs of source 1, then source 2, ... -- whatever the     *)
+(* time order of the merged rows, and the offset columns are built from    *)
+(* those labels (column j marks the rows labelled with the (j+1)-th        *)
+(* smallest key; Rank gives the 1-based rank of each source's key).        *)
+(***************************************************************************)
+RECURSIVE ConcatLabels(_, _)
+ConcatLabels(srcs, k) == IF k > Len(srcs) THEN <<>> ELSE [j \in DOMAIN srcs[k].obs |-> k] \o ConcatLabels(srcs, k + 1)
+
+KF_IdsNotPermuted(srcs, rank, rows, labels, constc, offc, trendc) ==
+  LET cl == ConcatLabels(srcs, 1) IN
+  /\ UnionExact(srcs, rows) /\ Paired(srcs, rows) /\ Ordered(rows)
+  /\ Len(labels) = Len(cl)
+  /\ \A r \in DOMAIN labels : labels[r] = srcs[cl[r]].key
+  /\ \A r \in DOMAIN rows : constc[r] = 1
+  /\ Len(offc) = Len(srcs) - 1
+  /\ \A j \in DOMAIN offc : \A r \in DOMAIN rows : offc[j][r] = (IF rank[cl[r]] = j + 1 THEN 1 ELSE 0)
+  /\ TrendOK(rows, trendc)
 =============================================================================
